@@ -2,8 +2,8 @@
   C15 model driver (acceptor mode). One request line = one observed execution:
     (run fixed|unfixed <label>*)
   labels: (go t [dep]) (batch k item p [dep]) (chain t (p*)) (fin t val err) (idle) (flush (k (val err)*)*)
-          (recvb t) (drain t) (iret) (ret) (release t)            -- err is 0|1
-  reply:  (ok (next n) (phase ph) (running t*) (blocked t*) (pending (k item*)*)
+          (recvb t) (drain t) (iret) (ret) (release t) (start)            -- err is 0|1
+  reply:  (ok (next n) (phase ph) (exec e) (running t*) (blocked t*) (pending (k item*)*)
               (calls (wave k (item*) (dest*))*) (delivered (p val err)*) (orphaned p*) (destfull b) (crashed b))
         | (reject i)        -- label number i (0-based) is not a step of the model
         | bad-op
@@ -42,6 +42,7 @@ def label? : Sexp → Option Label
   | Sexp.list [Sexp.atom "iret"] => some .idleRet
   | Sexp.list [Sexp.atom "ret"] => some .ret
   | Sexp.list [Sexp.atom "release", t] => do pure (.release (← t.nat?))
+  | Sexp.list [Sexp.atom "start"] => some .start
   | _ => none
 
 def phaseName : Phase → String
@@ -53,6 +54,7 @@ def render (s : St) : String :=
   toString (Sexp.node "ok" [
     Sexp.node "next" [Sexp.ofNat s.next],
     Sexp.node "phase" [Sexp.atom (phaseName s.phase)],
+    Sexp.node "exec" [Sexp.ofNat s.exec],
     Sexp.node "running" (nats (s.running.map (·.id))),
     Sexp.node "blocked" (nats (s.blocked.map (·.1))),
     Sexp.node "pending" (s.batches.map fun b => Sexp.list (Sexp.ofNat b.key :: nats b.items)),
